@@ -33,7 +33,7 @@ PROPS = {
             "thorough": [J("^vhC05_multi_T5$", samples=8), J("^vhC05_conc_v2$", preempt=0, samples=2, maxpaths=3000000), J("^vhC05_concsel_v1$", preempt=1, samples=2, maxpaths=3000000)], "bounds": {}, "assumptions": []},
     "C06": {"quick": [J("^vhC06_(inside_L2|wait_L1|collect_L2)$", preempt=1, samples=3)], "thorough": [J("^vhC06_(inside_L3|wait_L2|collect_L3)$", preempt=2, samples=4)], "bounds": {}, "assumptions": []},
     "C08": {"quick": [J("^vhC08_(sync_L2|handoff_n2)$", preempt=1, samples=3)], "thorough": [J("^vhC08_(sync_L3|handoff_n3)$", preempt=2, samples=4)], "bounds": {}, "assumptions": []},
-    "C14": {"quick": [J("^vhC14_early_L2$", samples=4), J("^vhC03_subconc_(2|3)$", preempt=2, samples=1)], "thorough": [J("^vhC14_early_L3$", preempt=1, samples=6), J("^vhC03_subconc_(2|3)$", preempt=3, samples=1)], "bounds": {}, "assumptions": []},
+    "C14": {"quick": [J("^vhC14_early_L2$|^vhC14_multi_L2$", samples=4), J("^vhC03_subconc_(2|3)$", preempt=2, samples=1)], "thorough": [J("^vhC14_early_L3$|^vhC14_multi_L2$", preempt=1, samples=6), J("^vhC03_subconc_(2|3)$", preempt=3, samples=1)], "bounds": {}, "assumptions": []},
     "C17": {"quick": [J("^vhC17_.*_L2$", preempt=1, samples=3)], "thorough": [J("^vhC17_.*_L3$", preempt=1, samples=4)], "bounds": {}, "assumptions": []},
     "C02": {"quick": [J("^vhC02_core_(2x2|3x1)$", preempt=0, samples=2), J("^vhC02_core_2x2$", preempt=1, samples=3, maxpaths=600000),
                       J("^vhC10_conc_|^vhC05_conc_v1$", preempt=0, samples=1, only_msgs="overlapped", maxpaths=600000)],
